@@ -382,6 +382,103 @@ def verify {α : Type} [DecidableEq α] (merge : α → α → α) (mmrSize : Na
   | none => none
   | some r => some (decide (r = root))
 
+/-! ## `MMRBatch` (mmr_store.rs): the in-memory overlay that `push` really writes to
+
+The functions above write through to the store map. The crate instead appends each push's elements
+to `memory_batch` and only `commit` copies them into the store; reads (`get_elem`) scan the batch
+from the newest entry backwards. `Lemmas/MMRBatch.lean` proves the two views equal. -/
+
+/-- `MMRBatch::get_elem`: newest entry first; `continue` while `pos` lies before the entry, answer
+from the entry that contains `pos`, otherwise (`break`) fall through to the store -/
+def batchScan {α : Type} (st : Store α) (pos : Nat) : List (Nat × List α) → Option α
+  | [] => st pos
+  | (start, elems) :: older =>
+    if pos < start then batchScan st pos older
+    else if pos < start + elems.length then elems[pos - start]?
+    else st pos
+
+/-- `batch` is kept oldest-first, as `memory_batch` is -/
+def batchGet {α : Type} (batch : List (Nat × List α)) (st : Store α) (pos : Nat) : Option α :=
+  batchScan st pos batch.reverse
+
+/-- `MMRBatch::commit`: `store.append(pos, elems)` for every entry, oldest first -/
+def batchCommit {α : Type} (batch : List (Nat × List α)) (st : Store α) : Store α :=
+  batch.foldl (fun s e => s.append e.1 e.2) st
+
+/-- the MMR object as the crate has it: size, uncommitted batch, underlying store -/
+structure BMMR (α : Type) where
+  size : Nat
+  batch : List (Nat × List α)
+  store : Store α
+
+/-- `find_elem` over the batch -/
+def findElemB {α : Type} (m : BMMR α) (pos : Nat) (hashes : List α) : Option α :=
+  if m.size ≤ pos then
+    match hashes[pos - m.size]? with
+    | some e => some e
+    | none => batchGet m.batch m.store pos
+  else batchGet m.batch m.store pos
+
+def pushLoopB {α : Type} (merge : α → α → α) (m : BMMR α) :
+    Nat → Nat → Nat → List α → Option (Nat × List α)
+  | 0, pos, _, elems => some (pos, elems)
+  | f + 1, pos, height, elems =>
+    if posHeightInTree (pos + 1) > height then
+      let pos' := pos + 1
+      let leftPos := pos' - parentOffset height
+      let rightPos := leftPos + siblingOffset height
+      match findElemB m leftPos elems, findElemB m rightPos elems with
+      | some l, some r => pushLoopB merge m f pos' (height + 1) (elems ++ [merge l r])
+      | _, _ => none
+    else some (pos, elems)
+
+/-- `MMR::push` exactly as written: `self.batch.append(elem_pos, elems); self.mmr_size = pos + 1` -/
+def pushB {α : Type} (merge : α → α → α) (m : BMMR α) (elem : α) : Option (BMMR α × Nat) :=
+  match pushLoopB merge m (m.size + 2) m.size 0 [elem] with
+  | none => none
+  | some (pos, elems) => some ({ size := pos + 1, batch := m.batch ++ [(m.size, elems)], store := m.store }, m.size)
+
+/-- several pushes on one MMR object (what `reconcile_main_chain` does before its single `commit`) -/
+def pushAllB {α : Type} (merge : α → α → α) (m : BMMR α) : List α → Option (BMMR α)
+  | [] => some m
+  | e :: es =>
+    match pushB merge m e with
+    | none => none
+    | some (m', _) => pushAllB merge m' es
+
+/-- the write-through view of a batched MMR -/
+def BMMR.flat {α : Type} (m : BMMR α) : MMR α := { size := m.size, store := batchCommit m.batch m.store }
+
+/-! ## `BlockExtensionVerifier::verify` (verification/contextual/src/contextual_block_verifier.rs) -/
+
+inductive ExtVerdict where
+  | ok | noBlockExtension | unknownFields | emptyBlockExtension | exceededMaximum
+  | invalidBlockExtension | invalidChainRoot | invalidExtraHash | internalMMR
+  deriving DecidableEq, Repr
+
+/-- The decision of `BlockExtensionVerifier::verify`, in the order of the code. `extraFields` is
+`count_extra_fields()`, `extLen` the extension's byte length (`none`: field present but unreadable),
+`rootAvailable` whether `chain_root_mmr.get_root()` succeeded, `prefixIsRoot` whether the first
+`CHAIN_ROOT_BYTES` bytes equal `root.calc_mmr_hash()`, `extraHashOk` the final extra-hash check. -/
+def extensionVerdict (mmrActive : Bool) (extraFields : Nat) (extLen : Option Nat)
+    (rootAvailable prefixIsRoot extraHashOk : Bool) : ExtVerdict :=
+  let tail : ExtVerdict := if extraHashOk then .ok else .invalidExtraHash
+  match extraFields with
+  | 0 => if mmrActive then .noBlockExtension else tail
+  | 1 =>
+    match extLen with
+    | none => .unknownFields
+    | some len =>
+      if len = 0 then .emptyBlockExtension
+      else if len > Gen.MMR.MAX_EXTENSION_BYTES then .exceededMaximum
+      else if mmrActive then
+        if len < Gen.MMR.CHAIN_ROOT_BYTES then .invalidBlockExtension
+        else if !rootAvailable then .internalMMR
+        else if !prefixIsRoot then .invalidChainRoot
+        else tail
+      else tail
+  | _ => .unknownFields
+
 /-! ## the free term algebra (what the driver prints) -/
 
 inductive Term where
